@@ -1475,3 +1475,137 @@ def rule_member_scan_bound(ctx):
                 ctx.violated("MEMBERSCAN", key, f.where(line), "the member loop runs while `%s`: its bound is not the member count itself, so the scan stops short of (or runs past) the last member" % render(cmp_)[:60])
     ctx.floor("MEMBERSCAN", 10, n, "(loops that index Vgettagref with their counter)")
     return n
+
+
+def rule_member_search_forward(ctx):
+    """FIRSTHIT (C08): a Vgroup's member list is ordered and may hold the same tag/ref more than once.  The routines that look
+    for a pair and act on "the" match (delete it, report its position) mean the *first* one, as the comments say, so their
+    search loop over `vg->tag[i]` / `vg->ref[i]` counts up from 0.  A loop that counts down acts on the last occurrence: the
+    multiset of members stays right, their order does not."""
+    prog = ctx.prog
+    n = 0
+    for f in prog.lib_funcs():
+        if not f.rel.endswith(("hdf/src/vgp.c", "hdf/src/vg.c")):
+            continue
+        k = 0
+        for lp, st in loops_of(f):
+            if lp[0] != "for":
+                continue
+            # the loop compares both member arrays at its counter
+            idx = {}
+            for e, nd in seq_of(loop_body(lp)):
+                for x in walk(e, True):
+                    if x[0] == "bin" and x[1] == "==":
+                        for s_ in (strip(x[2]), strip(x[3])):
+                            if kind(s_) == "idx" and kind(strip(s_[1])) == "mem" and strip(s_[1])[2] in ("tag", "ref") and strip(s_[1])[3] in ("vgroup_desc", "VGROUP") and kind(strip(s_[2])) == "var":
+                                idx.setdefault(strip(s_[2])[1], set()).add(strip(s_[1])[2])
+            vs = [v for v, fs in idx.items() if fs == {"tag", "ref"}]
+            if not vs:
+                continue
+            v = vs[0]
+            k += 1
+            n += 1
+            key = "FIRSTHIT:%s#%d" % (f.name, k)
+            line = node_line(lp)
+            init, cond, step = lp[1], lp[2], lp[3]
+            up = False
+            if step is not None:
+                for x in walk(step, True):
+                    if x[0] == "incdec" and x[1] == "++" and kind(strip(x[3])) == "var" and strip(x[3])[1] == v:
+                        up = True
+                    if x[0] == "asg" and x[1] == "+=" and kind(strip(x[2])) == "var" and strip(x[2])[1] == v:
+                        up = True
+            zero = False
+            if init is not None:
+                for x in walk(init, True):
+                    if x[0] == "asg" and x[1] == "=" and kind(strip(x[2])) == "var" and strip(x[2])[1] == v and is_int(x[3], 0):
+                        zero = True
+                    if x[0] == "decl":
+                        for d in x[1]:
+                            if d[0] == v and d[2] is not None and is_int(d[2], 0):
+                                zero = True
+            if up and zero:
+                ctx.holds("FIRSTHIT", key, f.where(line), "the search over the member pairs counts `%s` up from 0: the first occurrence is the one found" % v, nontrivial=True)
+            else:
+                ctx.violated("FIRSTHIT", key, f.where(line), "the search over the member pairs does not count `%s` up from 0: with a pair that occurs more than once it acts on a later occurrence and the members end up in another order" % v)
+    ctx.floor("FIRSTHIT", 3, n, "(searches for a tag/ref pair in a Vgroup's member list)")
+    return n
+
+
+def _dead_element_stores(block_kids):
+    """[(line, array, index)] for `A[c] = ..;` that a later sibling loop `for (j = 0; ..; j++) A[j] = ..;` overwrites
+    with no read of A in between"""
+    out = []
+    for i, k in enumerate(block_kids):
+        if k[0] != "s" or kind(k[1]) != "asg" or k[1][1] != "=":
+            continue
+        t = strip(k[1][2])
+        if not (kind(t) == "idx" and kind(strip(t[1])) == "var" and is_int(t[2])):
+            continue
+        arr, c = strip(t[1])[1], int_val(t[2])
+        for later in block_kids[i + 1:]:
+            if later[0] == "for":
+                init, step, body = later[1], later[3], later[4]
+                j = None
+                if init is not None:
+                    for x in walk(init, True):
+                        if x[0] == "asg" and x[1] == "=" and kind(strip(x[2])) == "var" and is_int(x[3]) and int_val(x[3]) <= c:
+                            j = strip(x[2])[1]
+                ups = step is not None and any(x[0] == "incdec" and x[1] == "++" for x in walk(step, True))
+                if j and ups:
+                    kills = False
+                    reads = False
+                    for e, nd in seq_of(body):
+                        for x in walk(e, True):
+                            if x[0] == "asg" and x[1] == "=":
+                                tt = strip(x[2])
+                                if kind(tt) == "idx" and kind(strip(tt[1])) == "var" and strip(tt[1])[1] == arr and kind(strip(tt[2])) == "var" and strip(tt[2])[1] == j:
+                                    kills = True
+                                if any(y[0] == "var" and y[1] == arr for y in walk(x[3], True)):
+                                    reads = True
+                    if kills and not reads:
+                        out.append((node_line(k), arr, c))
+                    break
+            # any other use of the array between the two ends the search
+            used = False
+            for e, nd in seq_of(later) if later[0] != "s" else [(later[1], later)]:
+                if e is not None and any(y[0] == "var" and y[1] == arr for y in walk(e, True)):
+                    used = True
+            if used:
+                break
+    return out
+
+
+def rule_no_dead_element_store(ctx):
+    """DEADELEM (C18, C03): `a[0] = SPECIAL;` placed *before* `for (j = 0; j < n; j++) a[j] = b[j];` is overwritten by the
+    loop's first iteration - the special value (SD_UNLIMITED for the record dimension of a copied data set) never reaches
+    the call the array is built for.  No store to a constant element of a local array is followed, with no use of the array
+    in between, by a loop that assigns every element from an index not above it.  The expected count is zero; the matcher is
+    exercised on a built-in positive example on every run."""
+    from .codec import ast_walk
+    prog = ctx.prog
+    ex = [["s", ["asg", "=", ["idx", ["var", "d", "l", "int[4]"], ["int", 0], "int"], ["int", 7], 1, "int"], 1, 1, []],
+          ["for", ["asg", "=", ["var", "j", "l", "int"], ["int", 0], 2, "int"], ["bin", "<", ["var", "j", "l", "int"], ["var", "n", "l", "int"], "int"],
+           ["incdec", "++", False, ["var", "j", "l", "int"], "int"],
+           ["block", [["s", ["asg", "=", ["idx", ["var", "d", "l", "int[4]"], ["var", "j", "l", "int"], "int"], ["idx", ["var", "s", "l", "int[4]"], ["var", "j", "l", "int"], "int"], 3, "int"], 3, 1, []]], 2, 1, []], 2, 1, []]]
+    if not _dead_element_stores(ex):
+        ctx.unrecognised("DEADELEM", "DEADELEM:selftest", "-", "the matcher no longer recognises its built-in positive example")
+    n = 0
+    for f in prog.funcs:
+        ast = f.raw.get("ast")
+        if not ast:
+            continue
+        n += 1
+        hits = []
+
+        def vis(nd, st):
+            if nd[0] == "block":
+                hits.extend(_dead_element_stores(nd[1]))
+            return True
+
+        ast_walk(ast, vis)
+        for line, arr, c in hits:
+            ctx.violated("DEADELEM", "DEADELEM:%s:%s" % (f.name, arr), f.where(line), "`%s[%d] = ..` is overwritten by the loop that follows it before anything reads it: the value stored here never takes effect" % (arr, c))
+    ctx.holds("DEADELEM", "DEADELEM:all", "-", "%d functions scanned: no constant-element store is killed by a following whole-array loop" % n, nontrivial=False)
+    ctx.floor("DEADELEM", 500, n, "(functions scanned)")
+    return n
